@@ -332,6 +332,52 @@ def stateless(chk, rule, prog, eff):
     return len(callees)
 
 
+def claim_helper(prog):
+    """name of the input-bookkeeping routine of the streaming decoder: the one library function that cbor_stream_decode
+    hands its source_size to (wherever it is defined: the decoder's unit or, as `static inline`, a shared header)"""
+    cached = getattr(prog, "_claim_helper", None)
+    if cached:
+        return cached
+    from ir import Arg
+    f = prog.fn("cbor_stream_decode")
+    si = f.param_index("source_size")
+    names = set()
+    seen = set()
+    work = [(f, si)]
+    while work:
+        g, j = work.pop()
+        if (g.name, j) in seen:
+            continue
+        seen.add((g.name, j))
+        passed_on = False
+        for u in g.users(Arg(g, j)):
+            if u.op == "call" and u.callee in prog.funcs:
+                for k, o in enumerate(u.operands):
+                    if isinstance(o, Arg) and o.i == j:
+                        work.append((prog.funcs[u.callee], k))
+                        passed_on = True
+        if not passed_on and g is not f:
+            names.add(g.name)     # the routine that finally consumes the buffer length (unit-internal forwarders are looked through)
+    if len(names) > 1:
+        # several consumers: the bookkeeping routine is the one the decoder's claims overwhelmingly go through; the others are
+        # left to the rule "source_size is used only as the claim routine's `provided` argument" (C09.prefix)
+        def sites(n):
+            return sum(1 for g in prog.funcs.values() if g.name in {x for x, _ in seen} for i in g.all_insts() if i.op == "call" and i.callee == n)
+        ranked = sorted(names, key=sites, reverse=True)
+        if sites(ranked[0]) >= 4 * max(1, sites(ranked[1])):
+            names = {ranked[0]}
+        else:
+            # ... or the one every decoding step starts with: a call of it dominates every call of the others
+            calls = {n_: [i for i in f.all_insts() if i.op == "call" and i.callee == n_] for n_ in names}
+            first = [n_ for n_ in names if any(all(f.dominates(c0, c1) for m_ in names if m_ != n_ for c1 in calls[m_]) for c0 in calls[n_])]
+            if len(first) == 1:
+                names = {first[0]}
+    if len(names) != 1:
+        raise AnalysisBroken("cbor_stream_decode hands source_size to %s: no single input-bookkeeping routine" % (sorted(names) or "no library function"))
+    prog._claim_helper = names.pop()
+    return prog._claim_helper
+
+
 def size_only_feeds_claims(chk, rule, prog):
     """the buffer length influences the outcome only through claim_bytes' comparison (prefix monotonicity)"""
     from ir import Arg, Inst
@@ -341,10 +387,10 @@ def size_only_feeds_claims(chk, rule, prog):
     n = 0
     for u in users:
         n += 1
-        ok = u.op == "call" and u.callee == "claim_bytes" and [k for k, o in enumerate(u.operands) if isinstance(o, Arg) and o.i == si] == [1]
+        ok = u.op == "call" and u.callee == claim_helper(prog) and [k for k, o in enumerate(u.operands) if isinstance(o, Arg) and o.i == si] == [1]
         chk.ob(rule, "use of source_size at %s" % u.loc(), ok, u.loc(), fn=f.name, key="ssz:%d" % u.line,
                detail="" if ok else "source_size is used by %r, not only as the 'provided' argument of claim_bytes" % u)
-    c = prog.fn("claim_bytes")
+    c = prog.fn(claim_helper(prog))
     pi = c.param_index("provided")
     chain = c.users(Arg(c, pi))
     ok = len(chain) == 1 and chain[0].op == "sub"
